@@ -345,3 +345,16 @@ func (x *Exec) httpReqFacts(st *State, req Val, reqT types.Type, ok Term) {
 	}
 	st.assume(Implies(ok, And(fs...)))
 }
+
+// errAsTerm: the selector behind errors.As for target type T.
+func (x *Exec) errAsTerm(st *State, err Val, T types.Type) Val {
+	v := x.uninterp(st, "errAs_"+sanitize(shortTypeName(T)), []Val{{T: err.T, Typ: types.Universe.Lookup("error").Type()}}, T)
+	// nothing is found in a nil error
+	switch T.Underlying().(type) {
+	case *types.Pointer:
+		st.assume(Implies(Eq(err.T, NilIface), Eq(v.T, IntLit(0))))
+	case *types.Interface:
+		st.assume(Implies(Eq(err.T, NilIface), Eq(v.T, NilIface)))
+	}
+	return v
+}
